@@ -1,5 +1,8 @@
 import SC.Proofs.Valid
 import SC.Properties.C09
+import SC.Proofs.EmbedBytes
+import SC.Proofs.RLastIndex
+import SC.Proofs.RCountByte
 /-!
 # C19 — a match survives embedding the haystack in a larger text
 -/
@@ -74,6 +77,50 @@ theorem hasSuffix_append (x s t : Bytes) (hx : Valid x) (h : S.hasSuffix s t = t
   rw [C09.hasSuffix_iff] at h ⊢
   rw [fruns_append x s hx]
   exact h.trans (List.suffix_append _ _)
+
+/-- LastIndex(s,t) = i ≥ 0 ⇒ LastIndex(x+s, t) = len(x)+i -/
+theorem lastIndex_append_left (x s t : Bytes) (hx : Valid x) (i : Nat) (h : S.lastIndex s t = (i : Int)) :
+    S.lastIndex (x ++ s) t = ((x.length + i : Nat) : Int) := A.lastIndex_append_left x s t hx i h
+
+/-- LastIndex(s,t) = i ≥ 0 ⇒ LastIndex(s+y, t) ≥ i -/
+theorem lastIndex_append_right (s y t : Bytes) (hs : Valid s) (i : Nat) (h : S.lastIndex s t = (i : Int)) :
+    (i : Int) ≤ S.lastIndex (s ++ y) t := A.lastIndex_append_right s y t hs i h
+
+/-- Count(x+s+y, t) ≥ Count(s, t): the greedy non-overlapping count is monotone under embedding -/
+theorem count_embed (x s y t : Bytes) (hx : Valid x) (hs : Valid s) : S.count s t ≤ S.count (x ++ s ++ y) t :=
+  A.count_embed x s y t hx hs
+
+/-- converse: if the first (last) match reported in x+s+y starts at or after `len x` and its matched text ends at or
+    before `len x + len s` — lies wholly inside `s` — then it is the first (last) match reported for `s` alone -/
+theorem index_of_embedded (x s y t : Bytes) (hx : Valid x) (hs : Valid s) (K : Nat)
+    (h : S.indexK (x ++ s ++ y) t = some K)
+    (hstart : x.length ≤ offAt (x ++ s ++ y) K)
+    (hend : offAt (x ++ s ++ y) (K + S.nrunes t) ≤ x.length + s.length) :
+    S.index (x ++ s ++ y) t = (offAt (x ++ s ++ y) K : Int) ∧
+    S.index s t = ((offAt (x ++ s ++ y) K - x.length : Nat) : Int) :=
+  ⟨by unfold S.index; rw [h], A.index_of_embedded x s y t hx hs K h hstart hend⟩
+theorem lastIndex_of_embedded (x s y t : Bytes) (hx : Valid x) (hs : Valid s) (K : Nat)
+    (h : S.lastIndexK (x ++ s ++ y) t = some K)
+    (hstart : x.length ≤ offAt (x ++ s ++ y) K)
+    (hend : offAt (x ++ s ++ y) (K + S.nrunes t) ≤ x.length + s.length) :
+    S.lastIndex (x ++ s ++ y) t = (offAt (x ++ s ++ y) K : Int) ∧
+    S.lastIndex s t = ((offAt (x ++ s ++ y) K - x.length : Nat) : Int) :=
+  ⟨by unfold S.lastIndex; rw [h], A.lastIndex_of_embedded x s y t hx hs K h hstart hend⟩
+
+/-- the same for the algorithm model (both packages, every backend setting), through the refinement theorems -/
+theorem model_embedding (cfg : A.Cfg) (x s y t : Bytes) (hx : Valid x) (hs : Valid s) (i : Nat) :
+    (A.Index cfg s t = (i : Int) → A.Index cfg (s ++ y) t = (i : Int) ∧
+        0 ≤ A.Index cfg (x ++ s) t ∧ A.Index cfg (x ++ s) t ≤ (x.length + i : Nat)) ∧
+    (A.LastIndex cfg s t = (i : Int) → A.LastIndex cfg (x ++ s) t = ((x.length + i : Nat) : Int) ∧
+        (i : Int) ≤ A.LastIndex cfg (s ++ y) t) ∧
+    (A.HasPrefix cfg s t = true → A.HasPrefix cfg (s ++ y) t = true) ∧
+    (A.HasSuffix cfg s t = true → A.HasSuffix cfg (x ++ s) t = true) ∧
+    A.Count cfg s t ≤ A.Count cfg (x ++ s ++ y) t := by
+  simp only [A.Index_eq, A.LastIndex_eq, A.HasPrefix_eq, A.HasSuffix_eq, A.Count_eq]
+  refine ⟨fun h => ⟨index_append_right s y t hs i h, index_append_left x s t hx i h⟩,
+    fun h => ⟨lastIndex_append_left x s t hx i h, lastIndex_append_right s y t hs i h⟩,
+    hasPrefix_append s y t hs, hasSuffix_append x s t hx, ?_⟩
+  exact_mod_cast count_embed x s y t hx hs
 
 example : Valid [0x78, 0xE4, 0xB8, 0x96] := by
   have : dec [0x78, 0xE4, 0xB8, 0x96] = [(0x78, 1), (0x4E16, 3)] := by decide +kernel
